@@ -314,12 +314,32 @@ def gen_program(r) -> tuple[dict[str, str], dict[str, Any], bool]:  # noqa: ANN0
     return templates, data, g.wild
 
 
-def render_program(templates: dict[str, str], data: dict[str, Any], mode: str = "sync") -> str:
-    """Render 'main' under the sync or the async API (template loading included).
-    liquid2.shopify.Environment is the default environment plus `tablerow`."""
+def make_env(kind: str, templates: dict[str, str]) -> Any:
+    """The environments the property is evaluated on.
+    default                : liquid2.shopify.Environment(auto_escape=True)  (default environment + tablerow)
+    register_default_args  : + register_translation_filters(env)            (documented helper, default arguments:
+                             replace=True, autoescape_message=False - it REPLACES the escaping filters that
+                             Environment.__init__ registered with auto_escape_message=env.auto_escape)
+    register_replace       : + register_translation_filters(env, replace=True)   (the same, spelled out)
+    debug_undefined        : undefined=DebugUndefined (its message embeds path keys that come from data)"""
     from liquid2 import DictLoader
     from liquid2.shopify import Environment
+    if kind == "debug_undefined":
+        from liquid2.undefined import DebugUndefined
+        return Environment(auto_escape=True, loader=DictLoader(templates), undefined=DebugUndefined)
     env = Environment(auto_escape=True, loader=DictLoader(templates))
+    if kind != "default":
+        from liquid2.builtin import register_translation_filters
+        if kind == "register_replace":
+            register_translation_filters(env, replace=True)
+        else:
+            register_translation_filters(env)
+    return env
+
+
+def render_program(templates: dict[str, str], data: dict[str, Any], mode: str = "sync", kind: str = "default") -> str:
+    """Render 'main' under the sync or the async API (template loading included)."""
+    env = make_env(kind, templates)
     if mode == "sync":
         return env.get_template("main").render(**data)
     tmpl = X.arun(env.get_template_async("main"))
@@ -404,3 +424,130 @@ def program_level(chk: C.Check, r, n: int) -> dict[str, Any]:  # noqa: ANN001
         if len(samples) < 3 and stats["programs"] % 151 == 12:
             samples.append({"templates": templates, "data": data, "output": outs})
     return {"programs": stats["programs"], "stats": stats, "nontrivial": nontrivial, "samples": samples}
+
+
+# ---------------------------------------------------------------- special streams
+
+TRANSLATION_SIG = "register_translation_filters-unescaped-message"
+
+
+def gen_translation_program(r, data: dict[str, Any]) -> dict[str, str]:  # noqa: ANN001
+    """Translation filters with messages, plural forms, contexts and message
+    variables that come from data; `date` with a data FORMAT and a literal left."""
+    strs = [k for k, v in data.items() if isinstance(v, str) and k != "f0"]   # f0 has a % directive: not a message
+
+    def sv() -> str:
+        return r.choice(strs)
+
+    def lit() -> str:
+        return "'" + r.choice(["one", "Hi", "a b", "x;", "lt;"]) + "'"
+
+    def msg() -> str:
+        return sv() if r.random() < 0.7 else lit()
+
+    def kw() -> str:
+        return "" if r.random() < 0.6 else f", x: {sv()}"
+
+    def tail() -> str:
+        return "" if r.random() < 0.6 else " | " + r.choice(STRUCT_F + ["append: " + sv(), "prepend: " + lit()])
+
+    forms = [
+        lambda: f"{{{{ {msg()} | t{(': x: ' + sv()) if r.random() < 0.3 else ''}{tail()} }}}}",
+        lambda: f"{{{{ {msg()} | gettext{(': x: ' + sv()) if r.random() < 0.3 else ''}{tail()} }}}}",
+        lambda: f"{{{{ {msg()} | t: plural: {msg()}, count: {r.choice(['2', '0', '5', 'n2', '1'])}{kw()}{tail()} }}}}",
+        lambda: f"{{{{ {msg()} | t: {msg()}, plural: {msg()}, count: {r.choice(['2', 'n2', '1'])}{tail()} }}}}",
+        lambda: f"{{{{ {msg()} | t: {msg()}{tail()} }}}}",
+        lambda: f"{{{{ {msg()} | ngettext: {msg()}, {r.choice(['2', '0', 'n2', '1'])}{kw()}{tail()} }}}}",
+        lambda: f"{{{{ {msg()} | pgettext: {msg()}{kw()}{tail()} }}}}",
+        lambda: f"{{{{ {msg()} | npgettext: {msg()}, {msg()}, {r.choice(['2', 'n2', '1'])}{kw()}{tail()} }}}}",
+        lambda: f"{{{{ 'Hi %(x)s and %(y)s' | t: x: {sv()}, y: {sv()}{tail()} }}}}",
+        lambda: f"{{% echo {msg()} | t: plural: {msg()}, count: 3 %}}",
+        lambda: f"{{% capture c %}}{{{{ {msg()} | t }}}}{{% endcapture %}}{{{{ c }}}}{{{{ c | upcase }}}}",
+        lambda: f"{{% for m in l0 %}}{{{{ m | t }}}}{{{{ 'one' | ngettext: m, 2 }}}}{{% endfor %}}",
+        # date: the FORMAT comes from data, the left value is a literal
+        lambda: f"{{{{ 'now' | date: {r.choice(['f0', 'f1'])}{tail()} }}}}",
+        lambda: f"{{{{ 'today' | date: {r.choice(['f0', 'f1'])} }}}}",
+        lambda: f"{{% assign dl = '2020-01-02' %}}{{{{ dl | date: {r.choice(['f0', 'f1'])}{tail()} }}}}",
+        lambda: f"{{{{ missing | default: 'now' | date: {r.choice(['f0', 'f1'])} }}}}",
+        lambda: f"{{% echo 'now' | date: {r.choice(['f0', 'f1'])} %}}{{% for f in l0 %}}{{{{ '2001-02-03' | date: f }}}}{{% endfor %}}",
+    ]
+    return {"main": "".join(r.choice(TEXT) + r.choice(forms)() for _ in range(r.randint(1, 4)))}
+
+
+def gen_undefined_program(r, data: dict[str, Any]) -> dict[str, str]:  # noqa: ANN001
+    """Paths that do not resolve, whose keys come from data (DebugUndefined
+    spells the path in what it renders)."""
+    strs = [k for k, v in data.items() if isinstance(v, str)]
+
+    def k() -> str:
+        return r.choice(strs)
+
+    def tail() -> str:
+        return "" if r.random() < 0.6 else " | " + r.choice(STRUCT_F + ["append: " + k(), "default: " + k(), "join: " + k(), "first"])
+
+    forms = [
+        lambda: f"{{{{ d0[{k()}]{tail()} }}}}",
+        lambda: f"{{{{ d0[{k()}].more[{k()}]{tail()} }}}}",
+        lambda: f"{{{{ nosuch[{k()}]{tail()} }}}}{{{{ nosuch }}}}",
+        lambda: f"{{{{ {k()}[{k()}]{tail()} }}}}{{{{ l0[99] }}}}{{{{ n2[{k()}] }}}}",
+        lambda: f"{{% for key in l0 %}}{{{{ d0[key] }}}}{{% echo e0[key]{tail()} %}}{{% cycle d0[key], key %}}{{% endfor %}}",
+        lambda: f"{{% render 'pu', key: {k()}, u: d0 %}}{{% include 'pu' with {k()} as key %}}",
+        lambda: f"{{% capture c %}}{{{{ d0[{k()}] }}}}{{% endcapture %}}{{{{ c }}}}{{{{ c | upcase }}}}",
+        lambda: f'{{{{ "a ${{d0[{k()}]}} b" }}}}{{% assign v = d0[{k()}] %}}{{{{ v }}}}{{% echo v %}}',
+        lambda: f"{{% macro mu, a %}}{{{{ a }}}}{{{{ e0[a] }}}}{{% endmacro %}}{{% call mu, d0[{k()}] %}}{{% call mu, {k()} %}}",
+        lambda: f"{{% with w: d0[{k()}] %}}{{{{ w }}}}{{% endwith %}}{{{{ d0[{k()}] | t }}}}",
+        lambda: f"{{% translate you: d0[{k()}] %}}Hello, {{{{ you }}}}!{{% endtranslate %}}",
+    ]
+    return {"main": "".join(r.choice(TEXT) + r.choice(forms)() for _ in range(r.randint(1, 4))),
+            "pu": "[{{ u[key] }}|{{ u[key] | upcase }}|{% echo nosuch[key] %}|{{ key }}]"}
+
+
+def special_streams(chk: C.Check, r, n: int) -> dict[str, Any]:  # noqa: ANN001
+    """Oracle-only streams for configurations and constructs the main program
+    generator does not reach: the documented `register_translation_filters`
+    paths, data-supplied plural forms / contexts / message variables, `date`
+    with a data format and a literal left value, and `DebugUndefined`."""
+    stats: dict[str, Any] = {"renders": {}, "programs": 0, "origin_checked": 0}
+    nontrivial: set[str] = set()
+    progs: list[tuple[str, dict[str, str], dict[str, Any], bool]] = []
+    for _ in range(n):
+        data = gen_data(r)
+        data.setdefault("d0", {"k": "v"})
+        data.update({"e0": {}, "n2": 2, "f0": data["s0"] + "%Y" + data["s1"], "f1": data["s2"]})
+        tp = gen_translation_program(r, data)
+        for kind in ("default", "register_default_args", "register_replace"):
+            progs.append((kind, tp, data, True))
+        progs.append(("debug_undefined", gen_undefined_program(r, data), data, False))
+    for kind, templates, data, origin in progs:
+        src = "\n".join(f"[{k}] {v}" for k, v in templates.items())
+        all_src = " ".join(templates.values())
+        ok = False
+        for mode in ("sync", "async"):
+            try:
+                out = render_program(templates, data, mode, kind)
+            except Exception as e:  # noqa: BLE001
+                key = f"{kind}:{mode}:{type(e).__name__}"
+                stats.setdefault("error_kinds", {})
+                stats["error_kinds"][key] = stats["error_kinds"].get(key, 0) + 1
+                continue
+            ok = True
+            stats["renders"][f"{kind}:{mode}"] = stats["renders"].get(f"{kind}:{mode}", 0) + 1
+            fail = X.syntactic_oracle(all_src, out)
+            if fail is None and origin:
+                stats["origin_checked"] += 1
+                f2 = X.origin_oracle(lambda _s, d, t=templates, m=mode, kd=kind: render_program(t, d, m, kd), all_src, data, out)
+                if f2:
+                    fail = "origin: " + f2
+            if fail:
+                api = "render" if mode == "sync" else "render_async"
+                # the helper's filters with autoescape_message=False: one mechanism, one signature
+                is_tr = kind in ("register_default_args", "register_replace") and re.search(r"\|\s*(t|gettext|ngettext|pgettext|npgettext)\b", all_src)
+                sig = TRANSLATION_SIG if is_tr else "oracle-program:" + fail.split(":")[0][:40]
+                chk.finding(sig, f"[{kind} environment, {api}] program {src!r} with {data!r} renders {out!r}: {fail}",
+                            {"templates": templates, "data": data, "output": out, "mode": mode, "environment": kind,
+                             "how": "harness/c04_programs.py make_env(kind, templates).get_template('main')." + api + "(**data)"})
+        if ok:
+            stats["programs"] += 1
+            if any(c in repr(data) for c in "<>&"):
+                nontrivial.add(kind + src + repr(data))
+    return {"programs": stats["programs"], "stats": stats, "nontrivial": nontrivial}
